@@ -64,7 +64,8 @@ def main():
     if os.path.exists(mp):
         with open(mp) as fh:
             meta = json.load(fh)
-    meta.update({"targets_property": pid, "author": "independent sub-agent given only the property text and a scratch worktree; asked for a behaviour-preserving refactoring",
+    once = sorted(set(meta.get("alarmed_once", [])) | set(alarms))
+    meta.update({"alarmed_once": once, "targets_property": pid, "author": "independent sub-agent given only the property text and a scratch worktree; asked for a behaviour-preserving refactoring",
                  "checks_run": props, "alarms": alarms})
     if suite is not None:
         meta["suite"] = suite
